@@ -1012,6 +1012,7 @@ package rockredis
 //@ func (db *RockDB) getCollVerKeyForRange(ts int64, dt byte, key []byte, useLock bool) (collVerKeyInfo, error)
 //@   requires db != nil
 //@   ensures result1 == nil ==> result0.OldHeader != nil && smallTK(result0.Table, result0.VerKey)
+//@   ensures result1 == nil ==> (result0.Expired <==> ghost(collexpired, db) == 1) && (result0.OldHeader.UserData == nil <==> ghost(collabsent, db) == 1)
 //@   ensures result1 == nil && dt == HashType ==> isCollKey(result0.RangeStart, HashType, result0.Table, result0.VerKey, nil) && isCollStop(result0.RangeEnd, HashType, result0.Table, result0.VerKey)
 //@   ensures result1 == nil && dt == SetType ==> isCollKey(result0.RangeStart, SetType, result0.Table, result0.VerKey, nil) && isCollStop(result0.RangeEnd, SetType, result0.Table, result0.VerKey)
 //@ func (r *RockDB) NewDBRangeIterator(min []byte, max []byte, rtype uint8, reverse bool) (*engine.RangeLimitedIterator, error)
@@ -1464,3 +1465,26 @@ package rockredis
 //@   modifies *
 //@ loop 1
 //@   invariant len(b) <= old(len(b)) && (old(len(b)) - len(b)) % 9 == 0
+
+// ---- hash enumerations (C09, C10, C12): HGETALL / HKEYS / HVALS enumerate exactly the collection's own key range
+// [RangeStart, RangeEnd) of its current generation, forwards, and hand out nothing for an expired or absent
+// collection (partial contracts: these assertions only) ----
+//@ property C09 C10 C12
+//@ func (db *RockDB) hGetAll(key []byte, getExpired bool) (int64, []common.KVRecordRet, error)
+//@   opt only=ASSERT,POST
+//@   opt autoloops
+//@   callassert NewDBRangeIterator sameSlice(arg1, keyInfo.RangeStart) && sameSlice(arg2, keyInfo.RangeEnd) && arg3 == common.RangeROpen && !arg4
+//@   ensures result2 == nil && !getExpired && (ghost(collexpired, db) == 1 || ghost(collabsent, db) == 1) ==> result0 == 0 && len(result1) == 0
+//@   modifies *
+//@ func (db *RockDB) HKeys(key []byte) (int64, []common.KVRecordRet, error)
+//@   opt only=ASSERT,POST
+//@   opt autoloops
+//@   callassert NewDBRangeIterator sameSlice(arg1, keyInfo.RangeStart) && sameSlice(arg2, keyInfo.RangeEnd) && arg3 == common.RangeROpen && !arg4
+//@   ensures result2 == nil && (ghost(collexpired, db) == 1 || ghost(collabsent, db) == 1) ==> result0 == 0 && len(result1) == 0
+//@   modifies *
+//@ func (db *RockDB) HValues(key []byte) (int64, []common.KVRecordRet, error)
+//@   opt only=ASSERT,POST
+//@   opt autoloops
+//@   callassert NewDBRangeIterator sameSlice(arg1, keyInfo.RangeStart) && sameSlice(arg2, keyInfo.RangeEnd) && arg3 == common.RangeROpen && !arg4
+//@   ensures result2 == nil && (ghost(collexpired, db) == 1 || ghost(collabsent, db) == 1) ==> result0 == 0 && len(result1) == 0
+//@   modifies *
